@@ -26,6 +26,7 @@ pub fn all() -> Vec<Box<dyn Engine>> {
         Box::new(compile::WfEngine),
         Box::new(vm::VmEngine),
         Box::new(vm::GcEngine),
+        Box::new(vm::MemEngine),
         Box::new(sem::SemEngine),
         Box::new(trace::TraceEngine),
         Box::new(natives::NatEngine),
